@@ -417,12 +417,12 @@ def main(tier):
             probe["hook"] = []
             probe["obs"][snaps[-1]]["x"] += 1
             break
-    if probe is None:
-        raise V.ToolError("no session produced a snapshot: nothing was observed")
-    verdicts, st = V.judge(os.path.join(SPEC, "DebuggerTrace.tla"), recs + [probe], cfg=os.path.join(SPEC, "DebuggerTrace.cfg"),
+    # No snapshot at all (e.g. the adapter never reports a stop) is an observation: the sessions are judged, the unanswered ones are
+    # reported below; only when nothing at all could be judged is it a tool error, and only after the verdicts.
+    verdicts, st = V.judge(os.path.join(SPEC, "DebuggerTrace.tla"), recs + ([probe] if probe else []), cfg=os.path.join(SPEC, "DebuggerTrace.cfg"),
                            tag="C19-judge", batch=150, timeout=1500)
     rep.add_stats(st)
-    if not any(v["id"] == 10 ** 6 and v["verdict"] == "violation" for v in verdicts):
+    if probe and not any(v["id"] == 10 ** 6 and v["verdict"] == "violation" for v in verdicts):
         raise V.ToolError("binding self-test failed: a snapshot with a corrupted register was accepted by DebuggerTrace")
     info = {}
     nsnap = sum(1 for r in recs for o in r["obs"] if o["k"] == "snap")
@@ -460,7 +460,11 @@ def main(tier):
                         "a breakpoint installed while the machine runs gets one iteration of grace (only breakpoints in force for the whole free run are required to stop it)",
                         "stepOut outside any subroutine is unspecified (any position at or after the current one is accepted)",
                         "a stopped event older than the client's last continue is ignored, as in Debugger.tla's client"]
-    return rep.finish()
+    rc = rep.finish()
+    if probe is None and rc == V.EXIT_OK:
+        V.log("TOOL-ERROR: no session produced a snapshot and nothing was reported: nothing was observed")
+        return V.EXIT_TOOL
+    return rc
 
 
 if __name__ == "__main__":
